@@ -167,6 +167,38 @@ def f4_fresh():
     return {"scripts": {"P": script}, "steps": steps}
 
 
+def f5_multiclause(rnd, n):
+    """predicates of three or four clauses whose heads use the same variable names in different
+    positions and nestings (all clauses of a predicate share one generated Python function)"""
+    argpats = [lambda: X, lambda: Y, lambda: C("f", X), lambda: C("f", Y), lambda: lst([X], Y), lambda: lst([Y], X), lambda: A("a"), lambda: C("g", X, Y)]
+    scns = []
+    for _ in range(n):
+        k = rnd.choice([3, 3, 4])
+        cls = []
+        for i in range(k):
+            h = C("t", rnd.choice(argpats)(), rnd.choice(argpats)())
+            r = rnd.random()
+            if r < 0.4:
+                body = TRUE
+            elif r < 0.7:
+                body = call(C("u%d" % i, X, Y))
+            elif r < 0.85:
+                body = call(C("=", Y, C("k", X)))
+            else:
+                body = and_(call(C("u%d" % i, T, X)), call(C("=", Y, T)))
+            cls.append(clause(h, body))
+        script = {"t/2": cls}
+        for i in range(k):
+            script["u%d/2" % i] = [clause(C("u%d" % i, A("c%d" % i), A("d%d" % i))), clause(C("u%d" % i, C("f", A("e%d" % i)), V(0)))]
+        steps = [[{"op": "load", "e": 1, "script": "P", "ow": True}]]
+        qs = [([V(0), V(1)], 2), ([A("a"), V(0)], 1), ([V(0), A("a")], 1), ([C("f", V(0)), V(1)], 2), ([lst([V(0), V(1)]), V(2)], 3), ([V(0), V(0)], 1),
+              ([C("f", A("c0")), V(0)], 1), ([C("g", V(0), A("b")), C("f", V(1))], 2)]
+        for i, (qa, qnv) in enumerate(qs):
+            steps.append([{"op": "solve", "e": 1, "r": i + 1, "goal": C("t", *qa), "qnv": qnv, "k": 0}])
+        scns.append({"scripts": {"P": script}, "steps": steps})
+    return scns
+
+
 def run(tier, seed):
     chk = Check("C01", tier, seed)
     rnd = random.Random(seed)
@@ -177,6 +209,7 @@ def run(tier, seed):
     else:
         chk.machine_family("F1-heads", f1_scenarios(rnd, (0, 1, 2), 1.0), features=features)
         n = 12000
+    chk.machine_family("F5-multiclause-heads", f5_multiclause(rnd, 400 if tier == "quick" else 6000), features=features)
     frag = set()
     scns = [gen.random_scenario(rnd, frag, nclauses=3, depth=rnd.choice([1, 2, 3])) for _ in range(n)]
     for i in range(0, n, 4000):
